@@ -1163,6 +1163,9 @@ class Interp(object):
             c = ndarr.concrete_real(x)
             if c is not None:
                 return int(c)
+            h = getattr(x, 'int_', None)
+            if h is not None:
+                return h(I)
             raise I.err('int() of symbolic value %r' % (x,))
 
         def b_float(x=0):
